@@ -19,6 +19,8 @@ theorem extract_ok_kind {a b : Arg} (hk : a.kind = b.kind) {v : Bytes} {t : Tok}
   · cases hp : parseUnsigned u64Max v <;> rw [hp] at h <;> simp_all
   · cases hp : parseF64 v <;> rw [hp] at h <;> simp_all
   · cases hp : parseUnsigned u64Max v <;> rw [hp] at h <;> simp_all
+  · exact h
+  · cases hp : parseUnsigned u32Max (lossy v) <;> rw [hp] at h <;> simp_all
 
 def sameKinds : List Arg → List Arg → Bool
   | [], [] => true
